@@ -161,6 +161,15 @@ var verifMandatoryKeys = []verifMandatory{
 // mandatory key from any mapping that has it yields at least one.
 func HarnessC13Missing() {
 	doc, sites := verifSkeletonSites()
+	if verifChoose("skeleton", 2) == 1 {
+		// the full skeleton must lint clean as well (it is the position table of C03/C07/C12)
+		fdoc, _ := verifFullSkeletonSites()
+		verifPlace(fdoc, 1, 0)
+		errs := verifLintNode(fdoc, verifRules())
+		verifReach("full-baseline")
+		verifCheckf(len(errs) == 0, "full-skeleton-is-clean", verifErrText(errs))
+		return
+	}
 	which := verifChoose("mandatory", len(verifMandatoryKeys)+1)
 	if which == len(verifMandatoryKeys) {
 		verifPlace(doc, 1, 0)
